@@ -45,6 +45,9 @@ def run(chk, tier):
         accumulation(chk, prog, cfg)
         phantom(chk, prog, cfg)
         ci.check_metatype_cmp(chk, prog, cfg, rule="R16.1")
+        # what the builders produced is what the registry stores (docs given through the always-setters included)
+        from . import c02
+        c02.check_config(chk, prog, cfg)
     # "PhantomData members are erased" is the library's job, by type identity: the derive hands every non-skipped member to the builders (a member whose
     # type merely has that name is a member) -- decided on the declaration corpus
     from . import c09
